@@ -71,6 +71,9 @@ func (in *Interp) startThread(t *thread, body func()) {
 				case nil:
 				case threadKill:
 				case *targetPanic:
+					if x.kind == "goexit" && t.id != 0 {
+						break // runtime.Goexit: the goroutine ends, nothing else happens
+					}
 					// unrecovered panic at the top of a goroutine: the process dies
 					if t.id == 0 {
 						abort = x // harness body: reported by runPath
